@@ -125,7 +125,7 @@ def enrich(raw):
     """every class gets (a) a const method handing out a const pointer/reference to itself and a non-const one handing out a
     mutable one (the history then owns borrowed and const wrappers), and (b) an overload pair that differs in constness of an
     object parameter and in the category of another parameter -- the shapes the constness rules are about"""
-    raw = json.loads(json.dumps(raw))
+    raw = json.loads(json.dumps(hgen.with_member_defaults(raw)))
     for i, c in enumerate(raw.get("classes", [])):
         own = lambda mode: {"k": "obj", "c": i, "mode": mode}       # noqa: E731
         c["members"] = c["members"] + [
@@ -148,12 +148,16 @@ def enrich(raw):
     raw["classes"] = list(raw["classes"]) + [mk([]), mk([{"c": n, "acc": 0, "virt": False}]), mk([]),
                                              mk([{"c": n + 1, "acc": 0, "virt": False}, {"c": n + 2, "acc": 0, "virt": False}])]
     ptr = lambda c: {"k": "obj", "c": c, "mode": 3}        # noqa: E731
+    cref = lambda c: {"k": "obj", "c": c, "mode": 2}       # noqa: E731
     i32, s_ = {"k": "prim", "p": 6}, {"k": "str", "mode": 2}
     probes = [
         {"ovs": [{"params": [ptr(n + 1)], "ret": i32, "ndef": 0, "dv": 0}, {"params": [ptr(n + 3)], "ret": i32, "ndef": 0, "dv": 0}, {"params": [ptr(n + 2)], "ret": i32, "ndef": 0, "dv": 0}],
          "file": 0, "inpub": True, "doc": 0},
         {"ovs": [{"params": [ptr(n + 1), i32], "ret": i32, "ndef": 1, "dv": 5}, {"params": [ptr(n + 3), i32], "ret": i32, "ndef": 1, "dv": 5}], "file": 0, "inpub": True, "doc": 0},
         {"ovs": [{"params": [i32, i32, i32], "ret": i32, "ndef": 2, "dv": 3}, {"params": [s_, s_], "ret": i32, "ndef": 0, "dv": 0}], "file": 0, "inpub": True, "doc": 0},
+        # overloads collapsed into one argument-count set by a default: the more specific type must still be tried first
+        {"ovs": [{"params": [cref(n), i32], "ret": i32, "ndef": 1, "dv": 5}, {"params": [cref(n + 1)], "ret": i32, "ndef": 0, "dv": 0}], "file": 0, "inpub": True, "doc": 0},
+        {"ovs": [{"params": [{"k": "prim", "p": 13}, i32], "ret": i32, "ndef": 1, "dv": 5}, {"params": [i32], "ret": i32, "ndef": 0, "dv": 0}], "file": 0, "inpub": True, "doc": 0},
     ]
     raw["n_probe_funcs"] = len(probes)
     raw["funcs"] = list(raw.get("funcs", [])) + probes + [
